@@ -10,13 +10,24 @@
     entries (key, binding form, bound identifier or literal) and wrapper structs with their
     W-fields / forwarding methods.
   * The choices made in the source text (which arms the switch has, the `Addr` flag of every `Val`
-    literal, the `continue` guards, the statements of the variadic branch, the kinds fixConst turns
-    into literals, the template's binding forms, the `restricted` table …) are read by the extractor
-    into `Facts`; `knobsOf` turns them into the switches (`Knobs`) the algorithm below consults.
+    literal, the `continue` guards, the statements of the variadic branch, the naming of parameters
+    and results, the Stringer test, the kinds fixConst turns into literals and its Complex case, the
+    wrapper prefix, the condition of the restricted-symbol substitution, the usePkg computation, the
+    template's binding forms, the `restricted` table …) are read by the extractor into `Facts`;
+    `knobsOf` turns them into the switches (`Knobs`) the algorithm below consults. Where a repair
+    changed a choice, the switch knows the text before and after the repair, so that reverting the
+    repair changes what the driver computes.
 -/
 namespace YaegiVerif.Extract
 
 /-! ### the input: go/types view of a package -/
+
+/-- the real or imaginary part of an untyped complex constant (`constant.Real`, `constant.Imag`):
+    an Int or a Float constant -/
+inductive CNum where
+  | int (v : Int)
+  | flt (num : Int) (den : Nat) (prec : Nat)
+  deriving DecidableEq, Repr
 
 /-- exact value of an untyped constant (go/constant) -/
 inductive CVal where
@@ -26,7 +37,7 @@ inductive CVal where
   | flt (num : Int) (den : Nat) (prec : Nat)
   | str (s : String)
   | bool (b : Bool)
-  | cplx
+  | cplx (re im : CNum)
   deriving DecidableEq, Repr
 
 structure Param where
@@ -37,6 +48,8 @@ structure Param where
   elem : Option (List Char)
   /-- import paths of the packages `qualify` is called with while printing `typ` -/
   deps : List String
+  /-- the underlying type is the basic type `string` -/
+  isString : Bool := false
   deriving DecidableEq, Repr
 
 structure Method where
@@ -90,11 +103,18 @@ inductive Tok where
   | INT | FLOAT | STRING | COMPLEX
   deriving DecidableEq, Repr
 
+/-- the value a nested INT / FLOAT literal denotes -/
+inductive Num where
+  | int (v : Int)
+  | rat (num : Int) (den : Nat)
+  deriving DecidableEq, Repr
+
 inductive LitVal where
   | int (v : Int)
   | rat (num : Int) (den : Nat)
   | str (s : String)
-  | cplx
+  /-- `constant.BinaryOp(RE, token.ADD, constant.MakeImag(IM))`, RE and IM literals -/
+  | cplx (re im : Num)
   deriving DecidableEq, Repr
 
 inductive Form where
@@ -102,7 +122,8 @@ inductive Form where
   | value (id : Ident)
   /-- `reflect.ValueOf(&X).Elem()` -/
   | addr (id : Ident)
-  /-- `reflect.ValueOf(constant.MakeFromLiteral(text, token.TOK, 0))`, by the value the text denotes -/
+  /-- `reflect.ValueOf(constant.MakeFromLiteral(text, token.TOK, 0))`, by the value the text denotes
+      (COMPLEX: `constant.BinaryOp` of two such literals) -/
   | lit (tok : Tok) (v : LitVal)
   /-- `reflect.ValueOf((*X)(nil))` -/
   | typ (id : Ident)
@@ -182,9 +203,15 @@ structure Facts where
   /-- statements of fixConst's Float case -/
   fixFloat : List String
   fixFormat : String
-  /-- arguments of strings.NewReplacer for the wrapper prefix -/
+  /-- arguments of strings.NewReplacer for the wrapper prefix (none: no replacer) -/
   replaced : List String
   prefixExpr : String
+  /-- `if rname := …; COND { pname = rname }` -/
+  restrictedCond : String
+  /-- the statements that compute `usePkg` and hand it to the template (none: there is no such thing) -/
+  usePkg : List String
+  /-- statements of fixConst's Complex case -/
+  fixComplex : List String
   /-- named lines of the template -/
   tmpl : List (String × String)
   defaultMinor : Nat
@@ -204,16 +231,34 @@ structure Knobs where
   skipUnexported : Bool
   skipGenericFunc : Bool
   skipGenericType : Bool
+  /-- before 87ef90c: an interface without methods that embeds something is taken for a constraint -/
   skipConstraintIface : Bool
+  /-- `!t.IsMethodSet()` -/
+  skipNonMethodSet : Bool
   skipUnexportedMethod : Bool
   /-- the variadic branch prints `...` + the type string without its first two characters -/
   variadicType : Bool
   /-- the variadic branch appends `...` to the forwarded argument -/
   variadicArg : Bool
+  /-- before 7677ad0: an empty parameter name becomes `a<i>`, every other name is copied -/
   defaultNames : Bool
+  /-- parameters called "", `_` or `W` get a fresh `a<i>` name, results called `W` a fresh `r<i>` -/
+  freshNames : Bool
+  /-- before 2873e96: the nil guard goes to every method called String -/
+  guardByName : Bool
+  /-- the nil guard goes to `String() string` only (Method.Stringer) -/
+  guardStringer : Bool
+  /-- the restricted-symbol substitution asks for `importPath == p.Name()` -/
+  restrictedStdOnly : Bool
+  /-- the extracted package is imported only if a binding names it (UsePkg) -/
+  importIfUsed : Bool
   litInt : Bool
   litFloat : Bool
   litString : Bool
+  /-- fixConst's Complex case builds `constant.BinaryOp(re, token.ADD, constant.MakeImag(im))` -/
+  litComplex : Bool
+  /-- the prefix is `strings.Map` over `"_"+importPath+"_"`: every non-letter, non-digit becomes `_` -/
+  prefixAll : Bool
   replaced : List Char
   /-- the template prints the binding forms / forwarding methods this model knows -/
   tmplOk : Bool
@@ -228,7 +273,8 @@ def lookup (k : String) : List (String × String) → Option String
 def addrFlags (arm : String) (ls : List (String × String × Bool)) : List (String × Bool) :=
   (ls.filter (fun l => l.1 == arm)).map (fun l => l.2)
 
-/-- the template text the model was written against -/
+/-- the template text the model was written against (the two lines that repairs changed, `guard`
+    and `importpkg`, are looked at separately) -/
 def knownTmpl : List (String × String) :=
   [("addr", "\"{{$key}}\": reflect.ValueOf(&{{$value.Name}}).Elem(),"),
    ("value", "\"{{$key}}\": reflect.ValueOf({{$value.Name}}),"),
@@ -239,10 +285,24 @@ def knownTmpl : List (String × String) :=
    ("ivalue", "IValue interface{}"),
    ("field", "W{{$m.Name}} func{{$m.Param}} {{$m.Result}}"),
    ("method", "func (W {{$value.Name}}) {{$m.Name}}{{$m.Param}} {{$m.Result}} {"),
-   ("guard", "{{- if eq $m.Name \"String\"}}"),
    ("call", "{{- $m.Ret}} W.W{{$m.Name}}{{$m.Arg -}}"),
    ("tags", "{{if .BuildTags}}// +build {{.BuildTags}}{{end}}"),
    ("package", "package {{.Dest}}")]
+
+/-- the statements 7677ad0 added to the method loop: the set of declared names and `fresh` -/
+def freshStmts : List String :=
+  ["used := map[string]bool{\"W\": true}", "range _ []*types.Tuple{sign.Params(), sign.Results()}",
+   "for j := 0; j < vars.Len(); j++", "used[vars.At(j).Name()] = true",
+   "fresh := func(prefix string, j int) string { name := fmt.Sprintf(\"%s%d\", prefix, j) for used[name] { name += \"_\" } used[name] = true return name }",
+   "args[j] = v.Name(); args[j] == \"\" || args[j] == \"_\" || args[j] == \"W\" => args[j] = fresh(\"a\", j)",
+   "name := v.Name()", "name == \"W\" => name = fresh(\"r\", j)",
+   "results[j] = name + \" \" + types.TypeString(v.Type(), qualify)"]
+
+/-- the statements 2873e96 added: Method.Stringer -/
+def stringerStmts : List String :=
+  ["stringer := false",
+   "f.Name() == \"String\" && sign.Params().Len() == 0 && sign.Results().Len() == 1 => b, ok := sign.Results().At(0).Type().Underlying().(*types.Basic); stringer = ok && b.Kind() == types.String",
+   "methods = append(methods, Method{f.Name(), param, result, arg, ret, stringer})"]
 
 def knobsOf (F : Facts) : Knobs :=
   { restricted := F.restricted
@@ -261,22 +321,48 @@ def knobsOf (F : Facts) : Knobs :=
     skipGenericFunc := F.skips.contains "s := o.Type().(*types.Signature); s.TypeParams().Len() > 0 || s.RecvTypeParams().Len() > 0"
     skipGenericType := F.skips.contains "t, ok := o.Type().(*types.Named); ok && t.TypeParams().Len() > 0"
     skipConstraintIface := F.skips.contains "t.NumMethods() == 0 && t.NumEmbeddeds() != 0 => delete(typ, name)"
+    skipNonMethodSet := F.skips.contains "!t.IsMethodSet() => delete(typ, name)"
     skipUnexportedMethod := F.skips.contains "!f.Exported()"
     variadicType := F.variadicCond == "sign.Variadic() && j == len(args)-1" &&
       F.variadicThen.contains "at := types.TypeString(v.Type(), qualify)[2:]" &&
       F.variadicThen.contains "params[j] = args[j] + \" ...\" + at"
     variadicArg := F.variadicCond == "sign.Variadic() && j == len(args)-1" &&
       F.variadicThen.contains "args[j] += \"...\""
-    defaultNames := F.methodStmts.contains "args[j] = v.Name(); args[j] == \"\" => args[j] = fmt.Sprintf(\"a%d\", j)"
+    defaultNames := F.methodStmts.contains "args[j] = v.Name(); args[j] == \"\" => args[j] = fmt.Sprintf(\"a%d\", j)" &&
+      F.methodStmts.contains "results[j] = v.Name() + \" \" + types.TypeString(v.Type(), qualify)"
+    freshNames := freshStmts.all F.methodStmts.contains
+    guardByName := lookup "guard" F.tmpl == some "{{- if eq $m.Name \"String\"}}"
+    guardStringer := lookup "guard" F.tmpl == some "{{- if $m.Stringer}}" && stringerStmts.all F.methodStmts.contains
+    restrictedStdOnly := F.restrictedCond == "rname := p.Name() + name; restricted[rname] && importPath == p.Name() => pname = rname"
+    importIfUsed := lookup "importpkg" F.tmpl == some "{{- if .UsePkg }}" &&
+      F.usePkg == ["\"UsePkg\": usePkg", "usePkg := len(typ) > 0",
+        "range name, v val => usePkg = usePkg || v.Name == p.Name()+\".\"+name"]
     litInt := lookup "Int" F.fixCases == some "INT"
     litFloat := lookup "Float" F.fixCases == some "FLOAT" &&
       F.fixFloat == ["v := constant.Val(val)", "f, ok := v.(*big.Float)",
         "if !ok { f = new(big.Float).SetRat(v.(*big.Rat)) }", "tok = \"FLOAT\"", "str = f.Text('g', int(f.Prec()))"]
     litString := lookup "String" F.fixCases == some "STRING"
+    litComplex := lookup "Complex" F.fixCases == some "" &&
+      F.fixComplex == ["re := fixConst(name, constant.Real(val), imports)", "im := fixConst(name, constant.Imag(val), imports)",
+        "return fmt.Sprintf(\"constant.BinaryOp(%s, token.ADD, constant.MakeImag(%s))\", re, im)"]
+    prefixAll := F.prefixExpr == "strings.Map(func(r rune) rune { if unicode.IsLetter(r) || unicode.IsDigit(r) { return r } return '_' }, \"_\"+importPath+\"_\")"
     replaced := (F.replaced.filter (fun s => s.length == 1 && s != "_")).flatMap String.toList
-    tmplOk := F.tmpl == knownTmpl &&
+    tmplOk := F.tmpl.filter (fun l => l.1 != "guard" && l.1 != "importpkg") == knownTmpl &&
+      -- each choice a repair changed reads as the text after or as the text before the repair
+      ((lookup "guard" F.tmpl == some "{{- if $m.Stringer}}" && stringerStmts.all F.methodStmts.contains) ||
+        lookup "guard" F.tmpl == some "{{- if eq $m.Name \"String\"}}") &&
+      ((lookup "importpkg" F.tmpl == some "{{- if .UsePkg }}" &&
+          F.usePkg == ["\"UsePkg\": usePkg", "usePkg := len(typ) > 0",
+            "range name, v val => usePkg = usePkg || v.Name == p.Name()+\".\"+name"]) ||
+        (lookup "importpkg" F.tmpl == some "{{- if or .Val .Typ }}" && F.usePkg.isEmpty)) &&
+      (F.restrictedCond == "rname := p.Name() + name; restricted[rname] && importPath == p.Name() => pname = rname" ||
+        F.restrictedCond == "rname := p.Name() + name; restricted[rname] => pname = rname") &&
+      (F.fixComplex == ["re := fixConst(name, constant.Real(val), imports)", "im := fixConst(name, constant.Imag(val), imports)",
+          "return fmt.Sprintf(\"constant.BinaryOp(%s, token.ADD, constant.MakeImag(%s))\", re, im)"] ||
+        F.fixComplex == ["fallthrough"]) &&
       F.fixFormat == "constant.MakeFromLiteral(%q, token.%s, 0) <- str, tok" &&
-      F.prefixExpr == "\"_\" + importPath + \"_\""
+      (F.prefixExpr == "strings.Map(func(r rune) rune { if unicode.IsLetter(r) || unicode.IsDigit(r) { return r } return '_' }, \"_\"+importPath+\"_\")" ||
+        F.prefixExpr == "\"_\" + importPath + \"_\" ; prefix = strings.NewReplacer(\"/\", \"_\", \"-\", \"_\", \".\", \"_\", \"~\", \"_\").Replace(prefix)")
     defaultMinor := F.defaultMinor }
 
 /-! ### fixConst for floating-point constants: `big.Float.SetRat` then `Text('g', prec)` -/
@@ -336,11 +422,18 @@ def floatText (num : Int) (den prec : Nat) : Int × Nat :=
 
 /-! ### genContent -/
 
-/-- `pname`: `pkg.Name` or the locally provided replacement -/
+/-- `pname`: `pkg.Name` or the locally provided replacement (since 246eb1c only for the packages
+    whose import path is their name: the standard library's os and log) -/
 def pname (K : Knobs) (p : Pkg) (name : String) : Ident :=
-  if K.restricted.contains (p.name ++ name) then ⟨"", p.name ++ name⟩ else ⟨p.name, name⟩
+  if K.restricted.contains (p.name ++ name) && (!K.restrictedStdOnly || p.importPath == p.name)
+  then ⟨"", p.name ++ name⟩ else ⟨p.name, name⟩
 
 def bindForm (addr : Bool) (id : Ident) : Form := if addr then .addr id else .value id
+
+/-- fixConst applied to the real or imaginary part of a complex constant -/
+def fixPart : CNum → Num
+  | .int n => .int n
+  | .flt n d prec => .rat (floatText n d prec).1 (floatText n d prec).2
 
 /-- fixConst (the form bound to an untyped constant) -/
 def fixConst (K : Knobs) (id : Ident) : CVal → Form
@@ -348,7 +441,11 @@ def fixConst (K : Knobs) (id : Ident) : CVal → Form
   | .flt n d prec => if K.litFloat then .lit .FLOAT (.rat (floatText n d prec).1 (floatText n d prec).2) else bindForm K.addrConst id
   | .str s => if K.litString then .lit .STRING (.str s) else bindForm K.addrConst id
   | .bool _ => bindForm K.addrConst id
-  | .cplx => bindForm K.addrConst id
+  | .cplx re im =>
+    if K.litComplex then
+      -- the parts go through fixConst again; a part that came back as a name would not be a constant.Value
+      (if K.litInt && K.litFloat then .lit .COMPLEX (.cplx (fixPart re) (fixPart im)) else .odd)
+    else bindForm K.addrConst id
 
 def isLit : Form → Bool
   | .lit _ _ => true
@@ -372,7 +469,8 @@ def typKept (K : Knobs) (o : Obj) : Bool :=
   (!(K.skipUnexported && !o.exported)) && K.hType &&
   match o.kind with
   | .typ g => !(K.skipGenericType && g)
-  | .iface g emb _ ms => !(K.skipGenericType && g) && !(K.skipConstraintIface && ms.isEmpty && emb != 0)
+  | .iface g emb methodSet ms =>
+    !(K.skipGenericType && g) && !(K.skipConstraintIface && ms.isEmpty && emb != 0) && !(K.skipNonMethodSet && !methodSet)
   | _ => false
 
 /-- does the interface get a wrapper (`wrap[name]`) -/
@@ -381,33 +479,82 @@ def wrapKept (K : Knobs) (o : Obj) : Bool :=
   | .iface _ _ _ _ => true
   | _ => false
 
-def argName (K : Knobs) (i : Nat) (p : Param) : String :=
-  if K.defaultNames && p.name == "" then "a" ++ toString i else p.name
+/-! #### names of the parameters and results of a wrapper method -/
+
+/-- `for used[name] { name += "_" }` (at most `fuel` rounds) -/
+def freshFrom : Nat → List String → String → String
+  | 0, _, s => s
+  | f + 1, used, s => if used.contains s then freshFrom f used (s ++ "_") else s
+
+/-- the closure `fresh` of the method loop: `prefix<j>` followed by as many `_` as it takes to be new.
+    (`used.length + 1` rounds are enough: the candidates are pairwise distinct.) -/
+def fresh (used : List String) (pre : String) (j : Nat) : String :=
+  freshFrom (used.length + 1) used (pre ++ toString j)
+
+/-- a parameter with this name cannot be forwarded (or collides with the receiver) -/
+def needsFresh (n : String) : Bool := n == "" || n == "_" || n == "W"
+
+/-- the names of the parameters, and the names declared so far (`used`) -/
+def paramNames (K : Knobs) : List String → Nat → List Param → List String × List String
+  | used, _, [] => ([], used)
+  | used, i, p :: ps =>
+    if K.freshNames then
+      if needsFresh p.name then
+        let r := paramNames K (fresh used "a" i :: used) (i + 1) ps
+        (fresh used "a" i :: r.1, r.2)
+      else
+        let r := paramNames K used (i + 1) ps
+        (p.name :: r.1, r.2)
+    else
+      let r := paramNames K used (i + 1) ps
+      ((if K.defaultNames && p.name == "" then "a" ++ toString i else p.name) :: r.1, r.2)
+
+/-- the names of the results -/
+def resultNames (K : Knobs) : List String → Nat → List Param → List String
+  | _, _, [] => []
+  | used, i, r :: rs =>
+    if K.freshNames && r.name == "W" then fresh used "r" i :: resultNames K (fresh used "r" i :: used) (i + 1) rs
+    else r.name :: resultNames K used (i + 1) rs
+
+/-- the names the method declares before any is invented: the receiver, the parameters, the results -/
+def declared (m : Method) : List String := "W" :: (m.params ++ m.results).map (·.name)
+
+def rename : List Param → List String → List Param
+  | p :: ps, n :: ns => { p with name := n } :: rename ps ns
+  | _, _ => []
 
 /-- parameters of a wrapper method: `n` = number of parameters, `i` = index of the head -/
 def wparams (K : Knobs) (variadic : Bool) (n : Nat) : Nat → List Param → List WParam
   | _, [] => []
   | i, p :: ps =>
     let last := variadic && (i + 1 == n)
-    { name := argName K i p,
+    { name := p.name,
       typ := if last && K.variadicType then p.typ.drop 2 else p.typ,
       variadic := last && K.variadicType } :: wparams K variadic n (i + 1) ps
 
 def wargs (K : Knobs) (variadic : Bool) (n : Nat) : Nat → List Param → List WArg
   | _, [] => []
   | i, p :: ps =>
-    { name := argName K i p, ellipsis := variadic && (i + 1 == n) && K.variadicArg } :: wargs K variadic n (i + 1) ps
+    { name := p.name, ellipsis := variadic && (i + 1 == n) && K.variadicArg } :: wargs K variadic n (i + 1) ps
 
 def wresults (rs : List Param) : List WParam :=
   rs.map fun r => { name := r.name, typ := r.typ, variadic := false }
 
+/-- Method.Stringer: `String() string` -/
+def isStringer (m : Method) : Bool :=
+  m.name == "String" && m.params.isEmpty && match m.results with
+    | [r] => r.isString
+    | _ => false
+
 def wmethod (K : Knobs) (m : Method) : WMethod :=
+  let pn := paramNames K (declared m) 0 m.params
+  let ps := rename m.params pn.1
   { name := m.name
-    params := wparams K m.variadic m.params.length 0 m.params
-    results := wresults m.results
-    args := wargs K m.variadic m.params.length 0 m.params
+    params := wparams K m.variadic m.params.length 0 ps
+    results := wresults (rename m.results (resultNames K pn.2 0 m.results))
+    args := wargs K m.variadic m.params.length 0 ps
     ret := !m.results.isEmpty
-    guard := m.name == "String" }
+    guard := (K.guardByName && m.name == "String") || (K.guardStringer && isStringer m) }
 
 def keptMethods (K : Knobs) (ms : List Method) : List Method :=
   ms.filter fun m => !(K.skipUnexportedMethod && !m.exported)
@@ -416,9 +563,16 @@ def methodsOf : Kind → List Method
   | .iface _ _ _ ms => ms
   | _ => []
 
-/-- the wrapper prefix: `"_" + importPath + "_"` with `/ - . ~` replaced by `_` -/
+/-- `unicode.IsLetter(r) || unicode.IsDigit(r)` on the bytes of an import path (import paths are
+    ASCII; a byte of a multi-byte character is kept) -/
+def keptInPrefix (c : Char) : Bool := c.isAlphanum || c.toNat ≥ 128
+
+/-- the wrapper prefix: `"_" + importPath + "_"` with every character that is not a letter or a digit
+    replaced by `_` (before 169d4db: only `/ - . ~`) -/
 def mangle (K : Knobs) (importPath : String) : String :=
-  String.ofList (("_" ++ importPath ++ "_").toList.map fun c => if K.replaced.contains c then '_' else c)
+  String.ofList (("_" ++ importPath ++ "_").toList.map fun c =>
+    if K.prefixAll then (if keptInPrefix c then c else '_')
+    else if K.replaced.contains c then '_' else c)
 
 def wtypeOf (K : Knobs) (p : Pkg) (o : Obj) : WType :=
   { name := mangle K p.importPath ++ o.name, iface := o.name,
@@ -473,6 +627,17 @@ def litUsed (K : Knobs) (p : Pkg) (os : List Obj) : Bool :=
     | some f => isLit f
     | none => false
 
+/-- `v.Name == p.Name()+"."+name`: the binding names the package -/
+def namesPkg (p : Pkg) (e : Entry) : Bool :=
+  match e.form with
+  | .value id => id == ⟨p.name, e.key⟩
+  | .addr id => id == ⟨p.name, e.key⟩
+  | _ => false
+
+/-- `usePkg` (before a2117ce: `or .Val .Typ` in the template) -/
+def usePkg (K : Knobs) (p : Pkg) (vals typs : List Entry) : Bool :=
+  if K.importIfUsed then !typs.isEmpty || vals.any (namesPkg p) else !(vals.isEmpty && typs.isEmpty)
+
 /-- the abstract wrapper file genContent hands to the template -/
 def genY (K : Knobs) (p : Pkg) : File :=
   let vals := valEntries K p p.objs
@@ -482,7 +647,7 @@ def genY (K : Knobs) (p : Pkg) : File :=
     tags := buildTags K p
     imports := typeImports K p p.objs
       ++ (if litUsed K p p.objs then ["go/constant", "go/token"] else [])
-      ++ (if vals.isEmpty && typs.isEmpty then [] else [p.importPath])
+      ++ (if usePkg K p vals typs then [p.importPath] else [])
       ++ ["reflect"]
     vals := vals
     typs := typs
